@@ -300,14 +300,19 @@ func (ir *ifdReader) fastRead(n int) (buf []byte, err error) {
 		ir.po += uint32(n)
 		return
 	}
-	if n, err = ir.reader.Read(ir.buffer.buf[:n]); err != nil {
+	if n < 0 || n > len(ir.buffer.buf) {
+		return nil, imagetype.ErrDataLength
+	}
+	// a single Read may legally return fewer bytes than asked for
+	n, err = io.ReadFull(ir.reader, ir.buffer.buf[:n])
+	ir.po += uint32(n)
+	if err != nil {
 		if ir.logLevelError() {
 			ir.logError(err).Msg("Read error")
 		}
-		return
+		return nil, err
 	}
-	ir.po += uint32(n)
-	return ir.buffer.buf[:n], err
+	return ir.buffer.buf[:n], nil
 }
 
 // ReadUint16 reads a uint16 from an ifdReader.
